@@ -984,3 +984,101 @@ Proof.
     split; [exact S0|intros b _; reflexivity].
   - intro s. reflexivity.
 Qed.
+
+(* ------------------------------------------------------------------ ec_glob as a whole, relative to the run of its first part *)
+(* the statements between the frame and `xgdep++`: nesting guard, default range, address, `not`, pattern *)
+Definition glob_prefix : stmt := SSeq glob_guard (SSeq glob_pct (SSeq glob_region (SSeq glob_not glob_pat))).
+Lemma exec_seq_app call f : forall a b st,
+  exec call f (seq_app a b) st = match exec call f a st with ONormal st1 => exec call f b st1 | o => o end.
+Proof.
+  induction a; intros b st; cbn [seq_app]; try (rewrite exec_seq; reflexivity).
+  rewrite !exec_seq. destruct (exec call f a1 st); try reflexivity. apply IHa2.
+Qed.
+Lemma ec_glob_split call f st :
+  exec call f (SSeq glob_guard (SSeq glob_pct (SSeq glob_region (SSeq glob_not (seq_app glob_pat glob_tail))))) st =
+  match exec call f glob_prefix st with ONormal st1 => exec call f glob_tail st1 | o => o end.
+Proof.
+  unfold glob_prefix. rewrite (exec_seq call f glob_guard), (exec_seq call f glob_guard). destruct (exec call f glob_guard st); try reflexivity.
+  rewrite (exec_seq call f glob_pct), (exec_seq call f glob_pct). destruct (exec call f glob_pct st0); try reflexivity.
+  rewrite (exec_seq call f glob_region), (exec_seq call f glob_region). destruct (exec call f glob_region st1); try reflexivity.
+  rewrite (exec_seq call f glob_not), (exec_seq call f glob_not). destruct (exec call f glob_not st2); try reflexivity. apply exec_seq_app.
+Qed.
+(* the state in which the first part starts: the frame of ec_glob on top of the caller's memory *)
+Definition glob_entry_st (m : mem) (vloc vcmd varg vtxt : val) : state :=
+  mkst [vloc; vcmd; varg; vtxt; VUndef; VPtr (length m) 0; VPtr (length m + 1) 0; VPtr (length m + 2) 0; VUndef; VPtr (length m + 3) 0;
+        VPtr (length m + 4) 0; VUndef; VUndef] (glob_entry_mem m varg).
+Lemma ec_glob_entry ext fuel d vloc vcmd ba oa vtxt (m : mem) :
+  callx ext cprog fuel (S (S d)) F_ec_glob [vloc; vcmd; VPtr ba oa; vtxt] m =
+  match (match exec (cx ext fuel d) fuel glob_prefix (glob_entry_st m vloc vcmd (VPtr ba oa) vtxt) with
+         | ONormal st1 => exec (cx ext fuel d) fuel glob_tail st1 | o => o end) with
+  | OReturn v st => Ok (v, memm st) | ONormal st => Ok (VUndef, memm st) | OErr x => Err x | _ => Err EShape
+  end.
+Proof.
+  rewrite callx_S. change (nth_error cprog F_ec_glob) with (Some cf_ec_glob).
+  cbn [fn_nparams cf_ec_glob length Nat.eqb fn_nlocals Nat.sub repeat app]. rewrite ec_glob_shape. unfold glob_frame.
+  repeat (progress (rewrite ?exec_seq, ?exec_expr; cbn [eval bind do_builtin_m Z.ltb Z.compare set_local locals set_nth memm get_local nth_error Z.to_nat])).
+  change (Pos.to_nat 1) with 1%nat. cbn [repeat]. rewrite store_new_cell. cbn [bind locals memm]. change (Pos.to_nat 32) with 32%nat.
+  fold (glob_entry_mem m (VPtr ba oa)). rewrite !app_length. cbn [length].
+  fold (cx ext fuel d). rewrite ec_glob_split. unfold glob_entry_st.
+  replace (length m + 1 + 1 + 1 + 1)%nat with (length m + 4)%nat by lia. replace (length m + 1 + 1 + 1)%nat with (length m + 3)%nat by lia.
+  replace (length m + 1 + 1)%nat with (length m + 2)%nat by lia. reflexivity.
+Qed.
+(* an early exit of the first part (too deep, bad address, address 0, no pattern, bad pattern) is the result of ec_glob *)
+Theorem tr_ec_glob_early ext fuel d vloc vcmd ba oa vtxt (m : mem) v st1 :
+  exec (cx ext fuel d) fuel glob_prefix (glob_entry_st m vloc vcmd (VPtr ba oa) vtxt) = OReturn v st1 ->
+  callx ext cprog fuel (S (S d)) F_ec_glob [vloc; vcmd; VPtr ba oa; vtxt] m = Ok (v, memm st1).
+Proof. intro H. rewrite ec_glob_entry, H. reflexivity. Qed.
+(* ... and when the first part runs through -- leaving re in local 4, `not` in local 8, beg / end / s in the cells of the frame and a memory m1
+   that represents the model state s -- the whole function returns 0 in a memory that represents the model's tail of ec_glob from s *)
+Theorem tr_ec_glob_run ext fuel d vloc vcmd ba oa vtxt (m : mem) bre nt m1 fr dep B rfind mexec pat body bs os s b e fuelM :
+  let b5 := length m in let b6 := (length m + 1)%nat in let b7 := (length m + 2)%nat in let b9 := (length m + 3)%nat in let b10 := (length m + 4)%nat in
+  exec (cx ext fuel d) fuel glob_prefix (glob_entry_st m vloc vcmd (VPtr ba oa) vtxt)
+  = ONormal (mkst [vloc; vcmd; VPtr ba oa; vtxt; VPtr bre 0; VPtr b5 0; VPtr b6 0; VPtr b7 0; VInt (b2z nt); VPtr b9 0; VPtr b10 0; VUndef; VUndef] m1) ->
+  (dep <= 7)%N -> ~ In G_xrow fr -> ~ In G_xgdep fr -> In b10 fr -> In b6 fr -> In b7 fr ->
+  find_oracle ext bre b5 fr B rfind pat -> exec_oracle ext fr B mexec body bs os -> exec_keeps_depth mexec body -> free_oracle ext bre fr B ->
+  st_rep fr B m1 s -> dep = N.of_nat (S (ExDefs.xgdep s)) ->
+  cell_at m1 b6 b -> cell_at m1 b7 e -> 0 <= b < 2147483647 -> e <= Z.of_nat (length (LB (ExDefs.lb s))) -> i32 e ->
+  nth_error m1 b10 = Some [VPtr bs os] -> (fuelM + B < fuel)%nat ->
+  let s3 := ExDefs.set_gdep s (S (ExDefs.xgdep s)) in
+  let s4 := ExDefs.set_lb s3 (ExDefs.globset_range (Z.to_nat (e - b - 1)) (Z.to_nat (b + 1)) dep (ExDefs.lb s3)) in
+  snd (GlobDefs.glob_loop_x rfind mexec fuelM (Z.to_nat b) pat body nt dep s4 []) <> 2%N ->
+  let s5 := ExDefs.glob_loop rfind mexec fuelM (Z.to_nat b) pat body nt dep s4 in
+  let s6 := ExDefs.set_lb s5 (ExDefs.globclear (length (ExDefs.lns (ExDefs.lb s5))) 0 dep (ExDefs.lb s5)) in
+  exists m', callx ext cprog fuel (S (S d)) F_ec_glob [vloc; vcmd; VPtr ba oa; vtxt] m = Ok (VInt 0, m') /\
+             st_rep fr B m' (ExDefs.set_gdep s6 (ExDefs.xgdep s)).
+Proof.
+  intros b5 b6 b7 b9 b10 Hpre Hdep Hnx Hng H10 H6 H7 Hfind Hexec Hgd Hfree S0 Hd Hcb Hce Hb He Hie Hs Hf s3 s4 Hx2 s5 s6.
+  destruct (tr_glob_tail ext fuel d vloc vcmd (VPtr ba oa) vtxt (VPtr b9 0) bre b5 b6 b7 b10 nt fr dep Hdep B rfind mexec pat body bs os
+              Hnx Hng H10 Hfind Hexec Hgd H6 H7 Hfree m1 s b e VUndef VUndef fuelM fuel S0 Hd Hcb Hce Hb He Hie Hs Hf Hx2) as (i' & ln' & m' & E & S').
+  exists m'. split; [|exact S']. rewrite ec_glob_entry, Hpre. rewrite E. reflexivity.
+Qed.
+
+(* two statements of the first part, run: the guard lets a global at nesting depth < 7 pass, and `not` is the model's *)
+Lemma glob_guard_pass call f lc (m : mem) g : cell_at m G_xgdep g -> g < 7 -> i32 g ->
+  exec call f glob_guard (mkst lc m) = ONormal (mkst lc m).
+Proof.
+  intros Hg H7 Hi. unfold glob_guard. rewrite exec_if. unfold gdep_ld. cbn [eval bind memm]. rewrite (load_cell m G_xgdep g Hg). cbn [bind].
+  rewrite (wrap_i32 g Hi). cbn [as_int bind arith]. destruct (Z.leb_spec 7 g); [lia|]. cbn [b2z truth negb Z.eqb]. apply exec_skip.
+Qed.
+Lemma find_byte_mem c s : match find_byte c s with Some _ => true | None => false end = ExDefs.mem c s.
+Proof.
+  unfold ExDefs.mem. induction s as [|x s IH]; [reflexivity|]. cbn [find_byte existsb].
+  destruct (N.eqb x c); [reflexivity|]. cbn [orb]. rewrite <- IH. destruct (find_byte c s); reflexivity.
+Qed.
+Lemma is_v c : (c < 256)%N -> (wrap I32 (wrap I8 (Z.of_N c)) =? 118) = (c =? 118)%N.
+Proof. revert c. byte_fact. Qed.
+(* not = strchr(cmd, '!') || cmd[0] == 'v'  is  mem 33 cmd || (hd0 cmd =? 118) of ExDefs.ec_glob *)
+Lemma glob_not_ok call f (m : mem) bcmd cmd v0 v2 v3 v4 v5 v6 v7 v8 v9 v10 v11 v12 : str_at m bcmd cmd -> nonul cmd ->
+  exec call f glob_not (mkst [v0; VPtr bcmd 0; v2; v3; v4; v5; v6; v7; v8; v9; v10; v11; v12] m)
+  = ONormal (mkst [v0; VPtr bcmd 0; v2; v3; v4; v5; v6; v7; VInt (b2z (ExDefs.mem 33 cmd || (hd0 cmd =? 118)%N)); v9; v10; v11; v12] m).
+Proof.
+  intros Hs Hn. unfold glob_not. rewrite exec_expr. cbn [eval bind get_local locals nth_error memm].
+  pose proof (builtin_strchr m bcmd cmd 0 33 Hs Hn ltac:(lia) ltac:(lia) ltac:(discriminate)) as E.
+  change (Z.of_nat 0) with 0 in E. change (Z.of_N 33) with 33 in E. cbn [skipn] in E. rewrite E. clear E. cbn [bind skipn memm locals].
+  rewrite <- (find_byte_mem 33 cmd). destruct (find_byte 33 cmd) as [k|]; cbn [truth bind negb Z.eqb orb].
+  - reflexivity.
+  - cbn [eval bind get_local locals nth_error memm as_int]. rewrite (load_str m bcmd cmd _ 0 Hs) by (try reflexivity; lia). cbn [bind as_int].
+    cbn [as_int bind arith]. rewrite is_v by (apply nthb_lt256; apply nonul_lt256; exact Hn). cbn [as_int bind arith truth].
+    replace (nthb cmd 0) with (hd0 cmd) by (destruct cmd; reflexivity).
+    destruct (hd0 cmd =? 118)%N; reflexivity.
+Qed.
